@@ -26,6 +26,7 @@ import (
 	"os"
 	"os/exec"
 	"path/filepath"
+	"regexp"
 	"runtime"
 	"sort"
 	"strconv"
@@ -829,10 +830,13 @@ func c19Layouts(base string, rootRel string, files map[string]string, R int, tag
 			l.fileArg = filepath.Join(l.src, rootRel)
 			l.outArg = "g"
 			l.outAbs = filepath.Join(l.cwd, "g")
-		default: // plain repetition of the baseline with another -out
+		default: // the output directory lies inside a Go module (goimports looks around the output file)
 			l.src, l.cwd = srcA, filepath.Join(base, "wd0")
 			l.fileArg = filepath.Join(l.src, rootRel)
-			l.outAbs = filepath.Join(base, "o", tag, fmt.Sprintf("r%d", r), "again")
+			mod := filepath.Join(base, "o", tag, fmt.Sprintf("r%d", r), "mod")
+			os.MkdirAll(mod, 0o755)
+			os.WriteFile(filepath.Join(mod, "go.mod"), []byte("module example.com\n\ngo 1.20\n"), 0o644)
+			l.outAbs = filepath.Join(mod, "gen")
 			l.outArg = l.outAbs
 		}
 		l.desc = fmt.Sprintf("rep=%d cwd=%s file=%s out=%s", r, strings.TrimPrefix(l.cwd, base), strings.TrimPrefix(l.fileArg, base), strings.TrimPrefix(l.outArg, base))
@@ -993,6 +997,8 @@ func c19Excerpt(a, b string) string {
 
 // ---------------------------------------------------------------- one task = (program, target, options)
 
+var c19ModRe = regexp.MustCompile(`<td><a href="([^"#]+)\.html">`)
+
 type c19Result struct {
 	ok      bool   // property held
 	invalid string // compile failed (same way in all runs): not a determinism statement
@@ -1000,6 +1006,7 @@ type c19Result struct {
 	detail  map[string]interface{}
 	order   string // canonical real generation order of run 0 ("ok 0,3,1")
 	orders  []string
+	mods    []string // html: module order of index.html per run (canonical)
 	runs    int
 }
 
@@ -1035,8 +1042,27 @@ func c19ParseKeep(s string, n int) []bool {
 // c19Task compiles one (program, keep, cfg) R times under varying layouts and
 // evaluates the property.  inproc adds in-process repetitions.
 func c19Task(p *c19Prog, keep []bool, cfg int, R int, inproc bool) c19Result {
-	res := c19Result{detail: map[string]interface{}{}}
 	files, _ := p.render(keep)
+	return c19TaskFiles(p, files, cfg, R, inproc, fmt.Sprintf("c19det %d %d %d %s", p.seed, cfg, R, c19KeepString(keep)))
+}
+
+func c19ReadTree(dir string) map[string]string {
+	files := map[string]string{}
+	filepath.Walk(dir, func(path string, info os.FileInfo, err error) error {
+		if err == nil && !info.IsDir() && (strings.HasSuffix(path, ".frugal") || strings.HasSuffix(path, ".thrift")) {
+			b, e := os.ReadFile(path)
+			if e == nil {
+				rel, _ := filepath.Rel(dir, path)
+				files[filepath.ToSlash(rel)] = string(b)
+			}
+		}
+		return nil
+	})
+	return files
+}
+
+func c19TaskFiles(p *c19Prog, files map[string]string, cfg int, R int, inproc bool, line string) c19Result {
+	res := c19Result{detail: map[string]interface{}{}}
 	gen := c19Cfgs[cfg].gen
 	base, err := os.MkdirTemp("", "verif-c19-")
 	if err != nil {
@@ -1061,7 +1087,6 @@ func c19Task(p *c19Prog, keep []bool, cfg int, R int, inproc bool) c19Result {
 		runs = append(runs, c19Compile(l, gen))
 	}
 	res.runs = len(runs)
-	line := fmt.Sprintf("c19det %d %d %d %s", p.seed, cfg, R, c19KeepString(keep))
 	res.detail["line"] = line
 	res.detail["target"] = gen
 	res.detail["program_seed"] = p.seed
@@ -1115,6 +1140,25 @@ func c19Task(p *c19Prog, keep []bool, cfg int, R int, inproc bool) c19Result {
 			}
 		}
 	}
+	if strings.HasPrefix(gen, "html") {
+		seen := map[string]bool{}
+		for _, r := range runs {
+			if b, err := os.ReadFile(filepath.Join(r.out, "index.html")); err == nil {
+				names := []string{}
+				for _, m := range c19ModRe.FindAllStringSubmatch(string(b), -1) {
+					names = append(names, m[1])
+				}
+				o := "ok ."
+				if len(names) > 0 {
+					o = "ok " + strings.Join(names, ",")
+				}
+				if !seen[o] {
+					seen[o] = true
+					res.mods = append(res.mods, o)
+				}
+			}
+		}
+	}
 	for _, r := range runs[1:] {
 		if f, ex := c19Diff(runs[0], r); f != "" {
 			res.what = "c19: emitted files differ between runs of the same program and options: target=" + gen
@@ -1151,18 +1195,7 @@ const c19KnownID = "html-same-basename-modules"
 const c19KnownWhat = "html generator: index.html lists two transitively included files with the same base name (a/common.frugal, b/common.frugal) in Go map iteration order (unstable sort by base name over map values): index.html differs between runs"
 
 func c19Witness() map[string]string {
-	dir := filepath.Join(c19VerifDir(), "known", "c19_same_basename")
-	files := map[string]string{}
-	filepath.Walk(dir, func(path string, info os.FileInfo, err error) error {
-		if err == nil && !info.IsDir() && (strings.HasSuffix(path, ".frugal") || strings.HasSuffix(path, ".thrift")) {
-			b, e := os.ReadFile(path)
-			if e == nil {
-				rel, _ := filepath.Rel(dir, path)
-				files[filepath.ToSlash(rel)] = string(b)
-			}
-		}
-		return nil
-	})
+	files := c19ReadTree(filepath.Join(c19VerifDir(), "known", "c19_same_basename"))
 	if _, ok := files["main.frugal"]; !ok {
 		Stat("known-witness-dir-missing-used-embedded")
 		return c19WitnessEmbedded
@@ -1330,6 +1363,13 @@ func c19Report(p *c19Prog, keep []bool, cfg int, res c19Result) {
 			Case(in, o)
 		}
 	}
+	if len(res.mods) > 0 {
+		rootName := strings.TrimSuffix(filepath.Base(p.paths[0]), filepath.Ext(p.paths[0]))
+		min := fmt.Sprintf("c19mods %s 0 %s", rootName, c19GraphString(graph))
+		for _, o := range res.mods {
+			Case(min, o)
+		}
+	}
 	if !res.ok {
 		OracleFail(res.what, res.detail)
 	}
@@ -1361,6 +1401,33 @@ func init() {
 		if !res.ok {
 			OracleFail(res.what, res.detail)
 			return "ok differ", true // the failure has been reported with its detail
+		}
+		return "ok same", true
+	}
+	// c19dir <cfg> <R> <dir relative to /verif>: a program kept on disk (root = main.frugal)
+	lineOps["c19dir"] = func(args []string) (string, bool) {
+		if len(args) != 3 {
+			return "bad-op", true
+		}
+		cfg, e2 := strconv.Atoi(args[0])
+		R, e3 := strconv.Atoi(args[1])
+		if e2 != nil || e3 != nil || cfg < 0 || cfg >= len(c19Cfgs) || R < 2 || R > 64 || strings.Contains(args[2], "..") {
+			return "bad-op", true
+		}
+		files := c19ReadTree(filepath.Join(c19VerifDir(), filepath.FromSlash(args[2])))
+		if _, ok := files["main.frugal"]; !ok {
+			OracleFail("c19: corpus program not found: "+args[2], map[string]interface{}{"line": "c19dir " + strings.Join(args, " ")})
+			return "missing", true
+		}
+		p := &c19Prog{paths: []string{"main.frugal"}}
+		res := c19TaskFiles(p, files, cfg, R, false, "c19dir "+strings.Join(args, " "))
+		if res.invalid != "" {
+			OracleFail("c19: corpus program does not compile: "+args[2]+": "+res.invalid, map[string]interface{}{"line": "c19dir " + strings.Join(args, " ")})
+			return "ok same", true
+		}
+		if !res.ok {
+			OracleFail(res.what, res.detail)
+			return "ok differ", true
 		}
 		return "ok same", true
 	}
